@@ -18,6 +18,7 @@ from collections import Counter
 from concurrent.futures import ProcessPoolExecutor, as_completed
 
 from .choice import Streams, shrink
+from .vclock import VCLOCK
 
 ENGINE_VERSION = 1
 VERIF_DIR = os.path.dirname(os.path.dirname(os.path.abspath(__file__)))
@@ -37,6 +38,9 @@ def setup_repo_path():
         sys.path.insert(0, repo)
     for name in [m for m in sys.modules if m == "asyncstdlib" or m.startswith("asyncstdlib.")]:
         del sys.modules[name]
+    from .vclock import install
+
+    install()  # the clock seam goes in before the code under test can bind any clock function
     import asyncstdlib
 
     where = os.path.abspath(asyncstdlib.__file__)
@@ -173,6 +177,7 @@ def _worker_inner(pid, verif_seed, start, stop, tier, want_digests):
             streams = Streams.generate(verif_seed, pid, index)
             ctx = Ctx(want_sample=(index < start + 1 and start % (CHUNK * 8) == 0),
                       want_log=want_digests, tier=tier)
+            VCLOCK.reset()
             outcomes = check.explore(streams, ctx)
             res["runs"] += 1
             for out in outcomes:
@@ -303,6 +308,7 @@ def anchor_file_coverage(pid, lines):
 # --------------------------------------------------------------------------- replay / shrink
 def replay_lists(check, lists, want_log=True, want_sample=True):
     streams = Streams.replay(lists)
+    VCLOCK.reset()
     out = check.execute(streams, Ctx(want_sample=want_sample, want_log=want_log))
     return out
 
